@@ -568,7 +568,10 @@ pub fn run_check(prop: &str, opts: &Opts) -> i32 {
             exit = simcore::EXIT_VIOLATION;
         } else {
             eprintln!("HARNESS-ERROR: replay of {} did not reproduce in a fresh process, neither alone nor after the batch prefix", path.display());
-            return simcore::EXIT_HARNESS;
+            // exit code 3: "something failed that this engine cannot replay" - the usual cause is interference
+            // between the batch's worker threads through shared state of the code under test; the driver may
+            // hand the decision to an engine that schedules threads (C06: concurrency pass), else it is a harness error
+            return 3;
         }
     }
     for k in &acc.known_seen {
